@@ -1426,13 +1426,27 @@ func c09UdpPath(r *VRand, st *VStream, stat *VStats, routing *componentdns.Dns) 
 	shard.pool[replyAddr] = af
 	shard.mu.Unlock()
 
-	w := newC09CtlWorld(st, stat, routing, false)
-	defer w.ctrl.Close()
-	callCh := make(chan *c09Call, 4096)
-	w.callCh = callCh
-	dnsForwarderFactory = func(up *componentdns.Upstream, da dialArgument, _ *logrus.Logger) (DnsForwarder, error) {
-		return &c09ScriptFwd{w: w, l4: da.l4proto}, nil
+	var w *c09CtlWorld
+	var callCh chan *c09Call
+	closeWorld := func() {
+		if w != nil {
+			old := w
+			go func() { _ = old.ctrl.Close() }() // goroutines of an abandoned round may still sit in it
+		}
 	}
+	newWorld := func() {
+		closeWorld()
+		nw := newC09CtlWorld(st, stat, routing, false)
+		ch := make(chan *c09Call, 4096)
+		nw.callCh = ch
+		dnsForwarderFactory = func(up *componentdns.Upstream, da dialArgument, _ *logrus.Logger) (DnsForwarder, error) {
+			return &c09ScriptFwd{w: nw, l4: da.l4proto}, nil
+		}
+		w, callCh = nw, ch
+	}
+	newWorld()
+	defer closeWorld()
+	attempt, whys := 0, []string{}
 	for round := 0; round < rounds; round++ {
 		k := 2 + r.Intn(5)
 		crowd := round%2 == 0
@@ -1535,11 +1549,32 @@ func c09UdpPath(r *VRand, st *VStream, stat *VStats, routing *componentdns.Dns) 
 			c.conn.Close()
 		}
 		if inconclusive != "" {
-			// goroutines of this round may still be blocked in the controller: no further rounds on this controller
-			stat.Inc("ctl.udppath.inconclusive")
-			stat.Add("ctl.udppath.rounds-not-run", rounds-round-1)
+			// goroutines of this round may still be blocked in the controller: retry the round on a fresh one.
+			// Three attempts stopping at the same point = the real code does not progress there (a hang is a
+			// definite observation); otherwise the machine is not scheduling us: stop, "no evidence".
+			stat.Inc("ctl.udppath.abandoned-attempt")
+			whys = append(whys, inconclusive)
+			attempt++
+			if attempt < 3 {
+				newWorld()
+				round--
+				continue
+			}
+			if whys[0] == whys[1] && whys[1] == whys[2] {
+				stat.Inc("ctl.udppath.hang")
+				st.Emit(fmt.Sprintf("H hang udppath round=%d k=%d uncached=%v %s", round, k, uncached, strings.ReplaceAll(inconclusive, " ", "_")),
+					"hang: three attempts of the same round stopped at the same point")
+			} else {
+				stat.Inc("ctl.udppath.inconclusive-unrecovered")
+			}
+			stat.Add("ctl.udppath.rounds-not-run", rounds-round)
 			break
 		}
+		if attempt > 0 {
+			stat.Inc("ctl.udppath.recovered-by-retry")
+		}
+		attempt, whys = 0, whys[:0]
+		stat.Inc("ctl.udppath.rounds-completed")
 		stat.Add("ctl.udppath.coalesced", w.ncalls()-nBefore)
 	}
 }
